@@ -231,6 +231,16 @@ def run(ctx, out, tier):
     check_fresh(ctx, out, "C13.fresh")
     from rules.C19 import check_request_gate
     check_request_gate(ctx, out, "C13.aikey")
+    # an uncompilable keep-unique pattern fails the run for every block with content (shared with C07)
+    from rules.C07 import check_bad_pattern
+    tr = out.trial()
+    try:
+        bp = check_bad_pattern(ctx, tr, rule="C13.badpattern")
+    except Exception as e:      # noqa: BLE001
+        ctx.view_fallbacks.append("C13.badpattern: small-model analysis failed (%s: %s)" % (type(e).__name__, e))
+        bp = None
+    if bp is not None:
+        out.adopt(tr)
     return meta()
 
 
